@@ -295,6 +295,9 @@ pub fn slice(case: &Case) -> RefResult {
     if ends.len() != n {
         return invalid("starts/ends length mismatch");
     }
+    if axes.is_none() && n != r {
+        return invalid("axes omitted: starts/ends must cover every axis");
+    }
     let axes: Vec<i64> = axes.unwrap_or_else(|| (0..n as i64).collect());
     let steps: Vec<i64> = steps.unwrap_or_else(|| vec![1; n]);
     if axes.len() != n || steps.len() != n {
@@ -318,6 +321,9 @@ pub fn slice(case: &Case) -> RefResult {
             return invalid("zero step");
         }
         if dim == 0 {
+            if step < 0 {
+                return undefined("negative step on an empty axis (clamp range [0, dim-1] is empty)");
+            }
             plan[a] = (0, step, 0);
             continue;
         }
@@ -335,6 +341,9 @@ pub fn slice(case: &Case) -> RefResult {
             e = e.clamp(0, dim);
             count = if e > s { ((e - s) as i128 + step as i128 - 1) / step as i128 } else { 0 };
         } else {
+            if s < 0 {
+                return undefined("negative step with start below -dim: specification text (clamp to 0) and numpy-based reference implementation (empty) disagree");
+            }
             s = s.clamp(0, dim - 1);
             e = e.clamp(-1, dim - 1);
             let neg = -(step as i128);
